@@ -58,7 +58,9 @@ def st_case(draw):
            "cp_bounds": draw(st.sampled_from([None, None, [0.3, 0.3], [0.08, 0.5], [1.5, 0.1]])),
            # contact point held fixed at the generating value / constrained by a two-term expression in the modulus
            # that holds at the generating parameters
-           "cp_mode": draw(st.sampled_from(["free", "free", "free", "fixed", "expr"]))}
+           "cp_mode": draw(st.sampled_from(["free", "free", "free", "fixed", "expr"])),
+           # scan over k on ONE fitter object (public class nanite.fit.IndentationFitter) vs a new fitter per k
+           "reuse_fitter": draw(st.sampled_from([False, False, True, False]))}
     cp = curve["params"]["contact_point"]
     if rt == "absolute":
         lo = cp - depth * draw(st.floats(0.3, 1.2))
@@ -106,6 +108,32 @@ def do_fit(case, k):
     return idnt, rec, cp_init, pi
 
 
+def reuse_fitter(ctx, idnt, k2, desc):
+    """a fitter that has fitted with one k and is given another k fits like a new fitter with that k"""
+    from nanite.fit import IndentationFitter
+    out = []
+    with fitgen.MinimizeRecorder() as rec, ctx.no_raise("fit-raises", dict(desc, k="fitter re-used")) as guard:
+        fa = IndentationFitter(idnt)
+        fa.fit()
+        fa.fp["gcf_k"] = k2
+        fa.fit()
+        fb = IndentationFitter(idnt)
+        fb.fp["gcf_k"] = k2
+        fb.fit()
+        for f in (fa, fb):
+            pf = f.fp.get("params_fitted")
+            out.append({"success": f.fp.get("success"), "xmin": f.fp.get("xmin"), "xmax": f.fp.get("xmax"),
+                        "params": None if pf is None else {n: pf[n].value for n in pf},
+                        "range": f.fit_range.tolist()})
+    ctx.event("fitter_reused")
+    if not guard.ok or rec.aborted:
+        return
+    diff = [key for key in out[0] if repr(out[0][key]) != repr(out[1][key])]
+    ctx.check(not diff, "reused-fitter-differs", desc,
+              f"fitter fitted with k={idnt.fit_properties.get('gcf_k')!r}, then given k={k2!r}: {diff} differ from a new "
+              f"fitter with k={k2!r}: {out[0]['params']} vs {out[1]['params']}")
+
+
 def check_case(case, ctx):
     curve, cfg = case["curve"], case["cfg"]
     k = cfg["k"]
@@ -122,6 +150,8 @@ def check_case(case, ctx):
     with ctx.no_raise("fit-raises", dict(desc, k="k")):
         ik, reck, cpik, pik = do_fit(case, k)
     f1, fk = i1.fit_properties, ik.fit_properties
+    if cfg.get("reuse_fitter"):
+        reuse_fitter(ctx, ik, 1.0 if k != 1 else 0.5, desc)
     ctx.check(f1.get("success") is True and fk.get("success") is True, "fit-unsuccessful", desc,
               f"success k=1: {f1.get('success')}, k={k}: {fk.get('success')}")
     # the caller's initial contact point is interpreted in measured units in every pass
